@@ -2,8 +2,8 @@
    Models: C14_Derived/Model.v (one step = one API call run to completion incl. nested callbacks; lower layer =
    property C13 taken as interface).  Interleaving models: WGI (WaitGroup), LK (SortedSet lock skeleton). *)
 From Coq Require Import ZArith NArith List Bool Sorting.Sorted.
-From Verif.C14_Derived Require Import Model ModelDVI.
-From Verif.C14_Derived Require ProofsDVI.
+From Verif.C14_Derived Require Import Model ModelDVI ModelEVR.
+From Verif.C14_Derived Require ProofsDVI ProofsEVR.
 From Verif.C14_Derived Require ProofsDV ProofsCT ProofsSS ProofsEV ProofsWG ProofsLK ProofsSN.
 Import ListNotations.
 
@@ -126,6 +126,46 @@ Theorem C14_eviction_stored_untriggered : forall h, let s := EV.run EV.init h in
   forall k id, In (k, id) (EV.evs s) -> EV.after_last (EV.last s) k = true /\ EV.triggered s (Some id) = false.
 Proof. exact ProofsEV.ev_stored_untriggered. Qed.
 
+(* ---- (6') EvictionState with RE-ENTRANT handlers (ModelEVR.v: Evict = lock, advance + collect, RELEASE the lock, then
+        trigger; a handler is an arbitrary script of LastEvictedSlot / EvictionEvent(slot').OnTrigger(handler') / Evict(slot')
+        calls on the same state, nested to any depth). For every history: every call returns (the machine is never stuck
+        on e.mutex and the work measure suffices as fuel), and at every quiescent point every event ever handed out - to a
+        top-level caller or to a handler - is triggered iff its slot is at or below the last evicted slot *)
+Theorem C14_eviction_reentrant_handlers_complete : forall h,
+  exists s, EVR.run false EVR.init h = EVR.Done s /\ EVR.locked s = false.
+Proof. exact ProofsEVR.evr_reentrant_handlers_complete. Qed.
+
+Theorem C14_eviction_reentrant_never_stuck : forall n s stk, EVR.locked s = false ->
+  forall s0 k, EVR.exec false n s stk <> EVR.Stuck s0 k.
+Proof. exact ProofsEVR.evr_never_stuck. Qed.
+
+Theorem C14_eviction_reentrant : forall h s, EVR.run false EVR.init h = EVR.Done s ->
+  forall slot hd, In (slot, hd) (EV.handles (EVR.base s)) ->
+  EV.triggered (EVR.base s) hd = match EV.last (EVR.base s) with None => false | Some l => (slot <=? l)%N end.
+Proof. exact ProofsEVR.evr_triggered_iff_evicted. Qed.
+
+Theorem C14_eviction_reentrant_stored_untriggered : forall h s, EVR.run false EVR.init h = EVR.Done s ->
+  forall k id, In (k, id) (EV.evs (EVR.base s)) ->
+  EV.after_last (EV.last (EVR.base s)) k = true /\ EV.triggered (EVR.base s) (Some id) = false.
+Proof. exact ProofsEVR.evr_stored_untriggered. Qed.
+
+Example C14_eviction_reentrant_nonvacuous :
+  exists s, EVR.run false EVR.init [ProofsEVR.chain3; EVR.AEvent 7 []; EVR.AEvict 0; EVR.AEvict 3; EVR.AEvent 2 [EVR.AEvict 5; EVR.ALast]] = EVR.Done s /\
+  EVR.obs s = (5, [true; false; true; true; true; true], [3; 101; 3; 102; 3; 103; 5; 104; 5])%N.
+Proof. exact ProofsEVR.evr_nonvacuous. Qed.
+
+(* the variant that triggers the collected events while e.mutex is still write-locked (EVR.step true) is stuck on
+   EvictionEvent(1).OnTrigger(LastEvictedSlot); Evict(1): the handler's read needs the mutex its own goroutine holds;
+   the same as a lock skeleton (Lock; [RLock; RUnlock]; Unlock on one non-re-entrant mutex) *)
+Theorem C14_refuted_eviction_trigger_under_lock :
+  exists s stk, EVR.run true EVR.init [EVR.AEvent 1 [EVR.ALast]; EVR.AEvict 1] = EVR.Stuck s stk /\
+                EVR.locked s = true /\ hd_error stk = Some (EVR.IAct EVR.ALast) /\ EV.last (EVR.base s) = Some 1%N.
+Proof. exact ProofsEVR.evr_refuted_trigger_under_lock. Qed.
+
+Theorem C14_refuted_eviction_skeleton_under_lock :
+  LK.deadlocked [ProofsEVR.evict_under_lock] (LK.run [ProofsEVR.evict_under_lock] [0] [0]) = true.
+Proof. exact ProofsEVR.evr_skeleton_under_lock_stuck. Qed.
+
 (* ---- (5) WaitGroup, all interleavings of the atomic steps of any Add/Done programs (code after 2702b2b) *)
 Theorem C14_waitgroup_triggers_only_when_emptied : forall progs sched,
   let s := WGI.run true (WGI.init progs) sched in WGI.trig s = true -> WGI.emptied s = true.
@@ -183,6 +223,12 @@ Print Assumptions C14_sortedset_ends.
 Print Assumptions C14_sortedset_indices.
 Print Assumptions C14_eviction.
 Print Assumptions C14_eviction_stored_untriggered.
+Print Assumptions C14_eviction_reentrant_handlers_complete.
+Print Assumptions C14_eviction_reentrant_never_stuck.
+Print Assumptions C14_eviction_reentrant.
+Print Assumptions C14_eviction_reentrant_stored_untriggered.
+Print Assumptions C14_refuted_eviction_trigger_under_lock.
+Print Assumptions C14_refuted_eviction_skeleton_under_lock.
 Print Assumptions C14_waitgroup_triggers_only_when_emptied.
 Print Assumptions C14_waitgroup_trigger_moment.
 Print Assumptions C14_waitgroup_triggers_when_done.
